@@ -26,11 +26,18 @@ How the model reads the tables:
   inside the command loop.
 * `checksumIsUpToDate`: read old → compute new → write under `!checker.dry && oldHash !=
   newHash` → generates check → `return oldHash == newHash` (`sumCheck`).
-* `timestampIsUpToDate`: Globs sources, Globs generates, Stat marker, append marker | create
-  under `!checker.dry`, `time.Now`, max, newer?, `Chtimes` under `!checker.dry` (`tsCheck`).
+* `timestampIsUpToDate` (patched by TS1/TS2): Globs sources, Globs generates, `generatesExist`
+  (true; cleared when a non-negated entry's `glob` fails or matches nothing — `gensOk`), Stat
+  marker, append marker | create under `!checker.dry`, `time.Now`, max, newer?, `upToDate :=
+  !shouldUpdate && generatesExist`, `Chtimes` under `!checker.dry && !upToDate`, `return upToDate`
+  (`tsCheck`).  The `def …` entries are the definitions of the verdict variables with their FULL
+  guard chain (err conditions included).
 * `checksumSum`: per source, `filepath.Rel(t.Dir, f)` → `filepath.ToSlash` → hash, then the
   content (`nameOf`, `stream`); `fingerOrder_checksumName_ok` pins the arguments.
-* `checksumOnError` removes the file when the task has sources; `timestampOnError` does nothing.
+* `checksumOnError` removes the file when the task has sources; so does `timestampOnError`
+  (patched by TS3) with the marker (`onError`); neither consults `checker.dry`, but in dry mode
+  `statusOnError` is unreachable in the model's fragment (prompt guard `!e.Dry`; `runCommand` has
+  no failing `execext.RunCommand` when dry).
 * keys: checksum `normalizeFilename(t.Name())`, timestamp `normalizeFilename(t.Task)`,
   regexp `[^A-z0-9]` → `-`.
 -/
@@ -125,6 +132,9 @@ theorem fingerOrder_checksumPath_ok : FingerOrder.checksumPath = [("filepath.Joi
 theorem fingerOrder_timestampIsUpToDate_ok : FingerOrder.timestampIsUpToDate = [("return false, nil", "len(t.Sources) == 0"),
   ("Globs", "!(len(t.Sources) == 0)"),
   ("Globs", "!(len(t.Sources) == 0)"),
+  ("def generatesExist := true", "!(len(t.Sources) == 0) && !(err != nil) && !(err != nil)"),
+  ("glob", "!(len(t.Sources) == 0) && range t.Generates && !(g.Negate)"),
+  ("def generatesExist = false", "!(len(t.Sources) == 0) && !(err != nil) && !(err != nil) && range t.Generates && !(g.Negate) && err != nil || len(files) == 0"),
   ("checker.timestampFilePath", "!(len(t.Sources) == 0)"),
   ("os.Stat", "!(len(t.Sources) == 0)"),
   ("append", "!(len(t.Sources) == 0)"),
@@ -134,10 +144,15 @@ theorem fingerOrder_timestampIsUpToDate_ok : FingerOrder.timestampIsUpToDate = [
   ("time.Now", "!(len(t.Sources) == 0)"),
   ("getMaxTime", "!(len(t.Sources) == 0)"),
   ("anyFileNewerThan", "!(len(t.Sources) == 0)"),
-  ("os.Chtimes", "!(len(t.Sources) == 0) && !checker.dry"),
-  ("return !shouldUpdate, nil", "!(len(t.Sources) == 0)")] := by rfl
+  ("def shouldUpdate, err := anyFileNewerThan(sources, generateMaxTime)", "!(len(t.Sources) == 0) && !(err != nil) && !(err != nil) && !(err != nil || generateMaxTime.IsZero())"),
+  ("def upToDate := !shouldUpdate && generatesExist", "!(len(t.Sources) == 0) && !(err != nil) && !(err != nil) && !(err != nil || generateMaxTime.IsZero()) && !(err != nil)"),
+  ("os.Chtimes", "!(len(t.Sources) == 0) && !checker.dry && !upToDate"),
+  ("return upToDate, nil", "!(len(t.Sources) == 0)")] := by rfl
 
-theorem fingerOrder_timestampOnError_ok : FingerOrder.timestampOnError = [("return nil", "")] := by rfl
+theorem fingerOrder_timestampOnError_ok : FingerOrder.timestampOnError = [("return nil", "len(t.Sources) == 0"),
+  ("os.Remove", "!(len(t.Sources) == 0)"),
+  ("checker.timestampFilePath", "!(len(t.Sources) == 0)"),
+  ("return nil", "!(len(t.Sources) == 0)")] := by rfl
 
 theorem fingerOrder_timestampPath_ok : FingerOrder.timestampPath = [("filepath.Join", ""),
   ("normalizeFilename", ""),
